@@ -115,6 +115,13 @@ def render_and_load(ctx, c, frec):
         with warnings.catch_warnings(record=True) as wl:
             warnings.simplefilter("always")
             y = io.load(path, **kw)
+            if fam == "ang":
+                # the plain rotation reader for .ang files (first three columns = Bunge angles in radians): same rotations
+                legacy = io.loadang(path)
+                a, b = np.asarray(legacy.data, float).reshape(-1, 4), np.asarray(y.rotations.data, float).reshape(-1, 4)
+                if a.shape != b.shape or (a.size and np.minimum(np.abs(a - b).max(axis=1), np.abs(a + b).max(axis=1)).max() > 1e-12):
+                    raise AssertionError(f"io.loadang gives other rotations than io.load for the same .ang file "
+                                         f"({a.shape[0]} vs {b.shape[0]} rotations)")
         msgs = [str(w.message) for w in wl]
         return y, msgs
     finally:
